@@ -13,6 +13,7 @@ import Driver.Rs
 import Driver.Sb
 import Driver.Cmd
 import Driver.Bl
+import Driver.Rc
 /-!
 # Line-protocol driver
 
@@ -31,6 +32,7 @@ structure St where
   cn : Conn.State := {}
   cl : Client.State := {}
   zc : Resolver.Zc := {}
+  rc : Reconnect.St := {}
 
 def showPlainErr : Option PlainErr → String
   | none => "none" | some .requiresEncryption => "requiresEncryption" | some .protocol => "protocol"
@@ -146,6 +148,7 @@ def step (st : St) (line : String) : St × String :=
     else if h.startsWith "sb." || h.startsWith "va." then (st, DrvSb.sbStep ws)
     else if h.startsWith "cmd." then (st, DrvCmd.cmdStep ws)
     else if h.startsWith "ble." then (st, DrvBl.blStep ws)
+    else if h.startsWith "rc." then let r := DrvRc.rcStep st.rc ws; ({ st with rc := r.1 }, r.2)
     else (st, "bad-op")
 
 partial def loop (h : IO.FS.Stream) (out : IO.FS.Stream) (st : St) : IO Unit := do
